@@ -1551,7 +1551,9 @@ func (d *Data) handleMaxlabel(ctx *datastore.VersionedCtx, w http.ResponseWriter
 	switch strings.ToLower(r.Method) {
 	case "get":
 		w.Header().Set("Content-Type", "application/json")
+		d.mlMu.RLock()
 		maxlabel, ok := d.MaxLabel[ctx.VersionID()]
+		d.mlMu.RUnlock()
 		if !ok {
 			server.BadRequest(w, r, "No maximum label found for %s version %d\n", d.DataName(), ctx.VersionID())
 			return
